@@ -26,6 +26,9 @@ structure KInv (s : KSys) : Prop where
   diskSub : ∀ b n i, s.store.disk b n = some i → s.store.snap b n = some i ∨ s.store.immDict b n = some i
   comm : s.committed = true → s.store.needFlush = true ∧ ∀ b n i, s.store.immDict b n = some i → s.store.disk b n = some i
   thr : ∀ t ∈ s.threads, t.Ok s.store
+  /-- the IsEmpty() flags are accurate -/
+  mutE : s.store.mutEmpty = true → ∀ b n, s.store.mutable b n = none
+  immE : ∀ d, s.store.immutable = some (d, true) → ∀ b n, d b n = none
 
 theorem lookupMem_eq (st : KvStore) (b n : Nat) :
     st.lookupMem b n = match st.mutable b n with
@@ -94,7 +97,7 @@ theorem kinv_create {s : KSys} (inv : KInv s) {b n : Nat}
     cases h : s.store.mutable b n with
     | none => rfl
     | some i => exact absurd (Or.inl h) (hfree i)
-  refine ⟨?_, ?_, ?_, inv.snapSub, inv.diskSub, inv.comm, hts⟩
+  refine ⟨?_, ?_, ?_, inv.snapSub, inv.diskSub, inv.comm, hts, fun h => absurd h (by simp [KvStore.insert]), inv.immE⟩
   · intro b' n' i j hi hj
     rcases owns_insert_inv hi with ⟨rfl, rfl, rfl⟩ | hi' <;> rcases owns_insert_inv hj with ⟨hb, hn, rfl⟩ | hj'
     · rfl
@@ -127,7 +130,7 @@ theorem kinv_thread {s : KSys} (inv : KInv s) {i : Nat} {t : KThread} (ht : s.th
   have same : ∀ t' : KThread, t'.Ok s.store →
       KInv { s with store := s.store, ctr := s.ctr, threads := s.threads.set i t' } := by
     intro t' h'
-    refine ⟨inv.uniq, inv.inj, inv.bound, inv.snapSub, inv.diskSub, inv.comm, ?_⟩
+    refine ⟨inv.uniq, inv.inj, inv.bound, inv.snapSub, inv.diskSub, inv.comm, ?_, inv.mutE, inv.immE⟩
     intro x hx
     rcases mem_set_cases hx with hx | rfl
     · exact inv.thr x hx
@@ -215,7 +218,7 @@ theorem kinv_prepare {s : KSys} (inv : KInv s) : KInv { s with store := s.store.
     have hdisk : s.store.prepareFlush.disk = s.store.disk := by simp [KvStore.prepareFlush, h]
     have hfs : s.store.prepareFlush.flushSeq = s.store.flushSeq := by simp [KvStore.prepareFlush, h]
     have hnf : s.store.needFlush = false := by simp [KvStore.needFlush, h]
-    refine ⟨?_, ?_, ?_, ?_, ?_, ?_, ?_⟩
+    refine ⟨?_, ?_, ?_, ?_, ?_, ?_, ?_, ?_, ?_⟩
     · intro b n i j hi hj; exact inv.uniq _ _ _ _ ((ho _ _ _).1 hi) ((ho _ _ _).1 hj)
     · intro b n b' n' i hi hj; exact inv.inj _ _ _ _ _ ((ho _ _ _).1 hi) ((ho _ _ _).1 hj)
     · intro b n i hi; exact inv.bound _ _ _ ((ho _ _ _).1 hi)
@@ -238,6 +241,10 @@ theorem kinv_prepare {s : KSys} (inv : KInv s) : KInv { s with store := s.store.
       | afterMem q => simp [hpc] at this ⊢; rw [hfs]; exact this
       | afterDisk q => simp [hpc] at this ⊢; rw [hfs, hsnap]; exact this
       | done j => simp [hpc] at this ⊢; exact (ho _ _ _).2 this
+    · intro _ b n; simp [KvStore.prepareFlush, h, Dict.empty]
+    · intro d hd b n
+      simp [KvStore.prepareFlush, h] at hd
+      rw [← hd.1]; exact inv.mutE hd.2 b n
 
 theorem needFlush_imm {st : KvStore} (h : st.needFlush = true) : ∃ d, st.immutable = some (d, false) := by
   unfold KvStore.needFlush at h
@@ -292,7 +299,7 @@ theorem kinv_commit {s : KSys} (inv : KInv s) (h2 : s.store.needFlush = true) :
       · exact Or.inl h
       · exact Or.inr (Or.inl h)
       · exact Or.inr (Or.inr (disk_fwd _ _ _ h))
-  refine ⟨?_, ?_, ?_, ?_, ?_, ?_, ?_⟩
+  refine ⟨?_, ?_, ?_, ?_, ?_, ?_, ?_, ?_, ?_⟩
   · intro b n i j hi hj; exact inv.uniq _ _ _ _ ((ho _ _ _).1 hi) ((ho _ _ _).1 hj)
   · intro b n b' n' i hi hj; exact inv.inj _ _ _ _ _ ((ho _ _ _).1 hi) ((ho _ _ _).1 hj)
   · intro b n i hi; exact inv.bound _ _ _ ((ho _ _ _).1 hi)
@@ -322,6 +329,15 @@ theorem kinv_commit {s : KSys} (inv : KInv s) (h2 : s.store.needFlush = true) :
     | afterMem q => simp [hpc] at this ⊢; rw [hfs']; exact this
     | afterDisk q => simp [hpc] at this ⊢; rw [hfs', hsnap']; exact this
     | done j => simp [hpc] at this ⊢; exact (ho _ _ _).2 this
+  · intro h b n
+    have h' : s.store.commit.mutEmpty = true := h
+    rw [hc] at h'
+    show s.store.commit.mutable b n = none
+    rw [hmut']; exact inv.mutE h' b n
+  · intro d' hd'
+    have h' : s.store.commit.immutable = some (d', true) := hd'
+    rw [hc] at h'
+    exact inv.immE d' h'
 
 theorem kinv_finish {s : KSys} (inv : KInv s) (h : s.committed = true) :
     KInv { s with store := s.store.finish, committed := false } := by
@@ -348,7 +364,7 @@ theorem kinv_finish {s : KSys} (inv : KInv s) (h : s.committed = true) :
       · exact Or.inl h
       · exact Or.inr (Or.inr (hsub _ _ _ h))
       · exact Or.inr (Or.inr h)
-  refine ⟨?_, ?_, ?_, ?_, ?_, ?_, ?_⟩
+  refine ⟨?_, ?_, ?_, ?_, ?_, ?_, ?_, ?_, ?_⟩
   · intro b n i j hi hj; exact inv.uniq _ _ _ _ ((ho _ _ _).1 hi) ((ho _ _ _).1 hj)
   · intro b n b' n' i hi hj; exact inv.inj _ _ _ _ _ ((ho _ _ _).1 hi) ((ho _ _ _).1 hj)
   · intro b n i hi; exact inv.bound _ _ _ ((ho _ _ _).1 hi)
@@ -373,20 +389,75 @@ theorem kinv_finish {s : KSys} (inv : KInv s) (h : s.committed = true) :
       refine ⟨by omega, fun hq => ?_⟩
       omega
     | done j => simp [hpc] at this ⊢; exact (ho _ _ _).2 this
+  · intro h b n
+    have h' : s.store.finish.mutEmpty = true := h
+    rw [hf] at h'
+    show s.store.finish.mutable b n = none
+    rw [hmut']; exact inv.mutE h' b n
+  · intro d' hd'
+    have h' : s.store.finish.immutable = some (d', true) := hd'
+    rw [hf] at h'; cases h'
 
 theorem kinv_call {s : KSys} (inv : KInv s) (b n : Nat) :
     KInv { s with threads := s.threads ++ [{ bucket := b, name := n }] } := by
-  refine ⟨inv.uniq, inv.inj, inv.bound, inv.snapSub, inv.diskSub, inv.comm, ?_⟩
+  refine ⟨inv.uniq, inv.inj, inv.bound, inv.snapSub, inv.diskSub, inv.comm, ?_, inv.mutE, inv.immE⟩
   intro t ht
   rcases List.mem_append.1 ht with h | h
   · exact inv.thr t h
   · simp at h; subst h; simp [KThread.Ok]
 
+/-- forgetting an immutable map that is empty changes nothing that matters -/
+theorem kinv_dropEmpty {s : KSys} (inv : KInv s) : KInv { s with store := s.store.dropEmpty } := by
+  unfold KvStore.dropEmpty
+  cases him : s.store.immutable with
+  | none => simpa [him] using inv
+  | some p =>
+    obtain ⟨d, e⟩ := p
+    cases e with
+    | false => simpa [him] using inv
+    | true =>
+      simp only [him]
+      have hd : ∀ b n, d b n = none := inv.immE d him
+      have himd : s.store.immDict = d := by simp [KvStore.immDict, him]
+      have ho : ∀ b n i, ({ s.store with immutable := none } : KvStore).Owns b n i ↔ s.store.Owns b n i := by
+        intro b n i
+        have h1 : ({ s.store with immutable := none } : KvStore).immDict b n = none := by simp [KvStore.immDict, Dict.empty]
+        have h2 : s.store.immDict b n = none := by rw [himd]; exact hd b n
+        unfold KvStore.Owns
+        rw [h1, h2]
+      have hnf : s.store.needFlush = false := by simp [KvStore.needFlush, him]
+      refine ⟨?_, ?_, ?_, inv.snapSub, ?_, ?_, ?_, inv.mutE, ?_⟩
+      · intro b n i j hi hj; exact inv.uniq _ _ _ _ ((ho _ _ _).1 hi) ((ho _ _ _).1 hj)
+      · intro b n b' n' i hi hj; exact inv.inj _ _ _ _ _ ((ho _ _ _).1 hi) ((ho _ _ _).1 hj)
+      · intro b n i hi; exact inv.bound _ _ _ ((ho _ _ _).1 hi)
+      · intro b n i hi
+        rcases inv.diskSub _ _ _ hi with h | h
+        · exact Or.inl h
+        · rw [himd, hd] at h; cases h
+      · intro hc
+        have := (inv.comm hc).1
+        rw [hnf] at this; cases this
+      · intro t ht
+        have := inv.thr t ht
+        unfold KThread.Ok at *
+        cases hpc : t.pc with
+        | start => simp
+        | afterMem q => simpa [hpc] using this
+        | afterDisk q => simpa [hpc] using this
+        | done j => simp [hpc] at this ⊢; exact (ho _ _ _).2 this
+      · intro d' hd'; cases hd'
+
+theorem kinv_prepareE {s : KSys} (inv : KInv s) (se : Bool) : KInv { s with store := s.store.prepareFlushE se } := by
+  unfold KvStore.prepareFlushE
+  cases se with
+  | false => simpa using kinv_prepare inv
+  | true => simpa using kinv_prepare (kinv_dropEmpty inv)
+
 theorem kinv_step {s s' : KSys} (inv : KInv s) (st : KStep .recheckFull s s') : KInv s' := by
   cases st with
   | call b n => exact kinv_call inv b n
   | thread i t h => exact kinv_thread inv h
-  | prepare => exact kinv_prepare inv
+  | prepare se => exact kinv_prepareE inv se
   | commit h1 h2 => exact kinv_commit inv h2
   | finish h => exact kinv_finish inv h
 
@@ -398,7 +469,7 @@ theorem kinv_start {s : KSys} (h : KStart s) : KInv s := by
     · rw [h.mutEmpty] at hi; cases hi
     · rw [him] at hi; simp [Dict.empty] at hi
     · exact hi
-  refine ⟨?_, ?_, ?_, ?_, ?_, ?_, ?_⟩
+  refine ⟨?_, ?_, ?_, ?_, ?_, ?_, ?_, fun _ => h.mutEmpty, fun d hd => by rw [h.immNil] at hd; cases hd⟩
   · intro b n i j hi hj
     have := ho _ _ _ hi; have := ho _ _ _ hj
     simp_all
